@@ -18,8 +18,8 @@ func init() {
 	register(&Spec{
 		ID: "C03",
 		Decides: "the copy traversal consults index entries, config, layers and (under their options) referrers and the tag list, and each result feeds goroutines that copy it; the five traversals of the image graph (copy, layout GC mark, export, import, mod) consult the same three getters; the media types treated as manifests agree between copy, import and export; " +
-			"the only success returns before the manifest write are under the digest-equality test; completions carry the child's error, nested copies go by digest with the child flag and tagged copies without it; the first copier records its error before waking waiters and a failed entry is forgotten under the lock; list filters do not write into their input's backing array.",
-		NotCovered: "that the target really holds the closure for every graph, pairing, pre-existing state and interleaving; external-URL policy; registry features.",
+			"the only success returns before the manifest write are under the digest-equality test; completions carry the child's error, nested copies go by digest with the child flag and tagged copies without it; the first copier records its error before waking waiters and a failed entry is forgotten under the lock; list filters do not write into their input's backing array; the existence test on the target in BlobCopy is made with a descriptor whose external URLs were cleared; the copy holds the layout's GC lock for its whole duration and the lock cannot be lost (shared with C08.R1/R2).",
+		NotCovered: "that the target really holds the closure for every graph, pairing, pre-existing state and interleaving; which layers are fetched from external URLs; registry features.",
 		Run:        runC03,
 	})
 }
@@ -37,6 +37,10 @@ func runC03(p *core.Prog, r *core.Report) {
 	c04R6(p, r, trav, "C03.R3")
 	c03R4(p, r)
 	c03R5(p, r, "C03.R5")
+	c03R7(p, r)
+	// a copy into a layout is complete only if the collector cannot run under it
+	c08R1(p, r, "C03.R8")
+	c08R2(p, r, "C03.R9")
 	c03R6(p, r)
 }
 
@@ -548,4 +552,99 @@ func reachesValue(v ssa.Value, target ssa.Value) bool {
 		return false
 	}
 	return walk(v, 0)
+}
+
+// ---------------------------------------------------------------------------------------------
+// R7 the target's existence test is answered by the target
+
+// emptySlice: nil, or a slice of a zero-length array / make with length 0.
+func emptySlice(v ssa.Value) bool {
+	switch x := v.(type) {
+	case *ssa.Const:
+		return x.IsNil()
+	case *ssa.Slice:
+		if al, ok := x.X.(*ssa.Alloc); ok {
+			if pt, ok := al.Type().Underlying().(*types.Pointer); ok {
+				if at, ok := pt.Elem().Underlying().(*types.Array); ok {
+					return at.Len() == 0
+				}
+			}
+		}
+	case *ssa.MakeSlice:
+		n, ok := core.ConstInt(x.Len)
+		return ok && n == 0
+	}
+	return false
+}
+
+func c03R7(p *core.Prog, r *core.Report) {
+	const rule = "C03.R7"
+	r.Rule(rule, "in BlobCopy the 'already at the target' test (BlobHead on the target reference) is given a copy of the descriptor whose URLs field has been overwritten with an empty list: a registry BlobHead falls back to the descriptor's external URLs, so with the caller's descriptor a third-party server would answer for the target and the layer would be skipped", 1)
+	fn := p.Method(".", "RegClient", "BlobCopy")
+	if fn == nil {
+		r.MissingAnchor(rule, "regclient.(*RegClient).BlobCopy")
+		return
+	}
+	fname := p.FuncName(fn)
+	var refs []*ssa.Parameter
+	for _, pr := range fn.Params {
+		if core.IsModNamed(pr.Type(), "types/ref", "Ref") {
+			refs = append(refs, pr)
+		}
+	}
+	if len(refs) != 2 {
+		r.Undecided(rule, fname, "source/target parameters", p.Pos(fn.Pos()), "expected two reference parameters")
+		return
+	}
+	tgt := refs[1]
+	n := 0
+	lab := labeler{}
+	core.Calls(fn, func(c ssa.CallInstruction) {
+		cal := core.Callee(c)
+		if cal == nil || !core.IsModMethod(cal, ".", "RegClient", "BlobHead") {
+			return
+		}
+		if !core.HasOrigin(core.Origins(core.CallArg(c, 2), core.SliceOpts{}), func(o core.Origin) bool { return o.Kind == core.OParam && o.Param == tgt }) {
+			return
+		}
+		n++
+		label := lab.next("BlobHead on the target")
+		arg := core.CallArg(c, 3)
+		ld, ok := arg.(*ssa.UnOp)
+		var cell *ssa.Alloc
+		if ok && ld.Op == token.MUL {
+			cell, _ = ld.X.(*ssa.Alloc)
+		}
+		if cell == nil {
+			r.Violated(rule, fname, label, p.Pos(c.Pos()), "the descriptor is passed as received (not a local copy with its URLs cleared)")
+			return
+		}
+		cleared := false
+		if refsTo := cell.Referrers(); refsTo != nil {
+			for _, rf := range *refsTo {
+				fa, ok := rf.(*ssa.FieldAddr)
+				if !ok || core.FieldName(fa.X.Type(), fa.Field) != "URLs" {
+					continue
+				}
+				for _, u := range *fa.Referrers() {
+					if st, ok := u.(*ssa.Store); ok && st.Addr == fa && emptySlice(st.Val) && core.DominatesInstr(st, c) {
+						// no later whole-cell store between the clearing and the call
+						later := false
+						for _, ws := range core.StoresToCell(cell) {
+							if core.DominatesInstr(st, ws) && (core.Reach{}).FromInstr(ws)[c.(ssa.Instruction)] {
+								later = true
+							}
+						}
+						if !later {
+							cleared = true
+						}
+					}
+				}
+			}
+		}
+		r.Check(cleared, rule, fname, label, p.Pos(c.Pos()), "the descriptor handed to the target's BlobHead is a local copy whose URLs were set to an empty list before the call")
+	})
+	if n == 0 {
+		r.Held(rule, fname, "no existence test on the target", p.Pos(fn.Pos()), "BlobCopy does not ask the target whether the blob exists; nothing can be answered by a third party")
+	}
 }
